@@ -125,8 +125,12 @@ func (x *Exec) strConst(s string) string {
 
 func (x *Exec) floatConstVal(v constant.Value) string {
 	key := v.ExactString()
-	if f, ok := constant.Float64Val(v); ok && f == 0 {
-		return "(fconst 0)"
+	if f, ok := constant.Float64Val(v); ok && f == float64(int64(f)) && f > -1e15 && f < 1e15 {
+		n := int64(f)
+		if n < 0 {
+			return fmt.Sprintf("(i2f (- %d))", -n)
+		}
+		return fmt.Sprintf("(i2f %d)", n)
 	}
 	if i, ok := x.floats[key]; ok {
 		return fmt.Sprintf("(fconst %d)", i)
@@ -149,7 +153,7 @@ func (x *Exec) floatConst(e Expr) string {
 	case *EInt:
 		return x.floatConstVal(constant.ToFloat(constant.MakeFromLiteral(n.V, token.INT, 0)))
 	}
-	return "(fconst 0)"
+	return "(i2f 0)"
 }
 
 // ---------------------------------------------------------------------------
@@ -685,6 +689,24 @@ func (x *Exec) verifyFunc(fn *ssa.Function, ct *Contract) {
 		p.lets[lt.Name] = sv
 		env = x.specEnv(p)
 	}
+	for _, d := range ct.Defines {
+		denv := env
+		var decl, args []string
+		for _, qv := range d.Params {
+			ss, so := quantSort(qv.Type)
+			nm := "d_" + qv.Name
+			decl = append(decl, fmt.Sprintf("(%s %s)", nm, ss))
+			args = append(args, nm)
+			denv = denv.with(qv.Name, term(nm, so))
+		}
+		body, err := denv.evalBool(d.E)
+		if err != nil {
+			x.errorf("%s: define %s: %v", ct.Func, d.Name, err)
+			return
+		}
+		app := "(" + d.Name + " " + strings.Join(args, " ") + ")"
+		p.assume(fmt.Sprintf("(forall (%s) (! (= %s %s) :pattern (%s)))", strings.Join(decl, " "), app, body, app))
+	}
 	for _, rq := range ct.Requires {
 		s, err := env.evalBool(rq.E)
 		if err != nil {
@@ -1134,7 +1156,7 @@ func (x *Exec) exitNormal(p *Path, results []SV, in ssa.Instruction) {
 			x.oblig(p, "panics_iff/complete", "(not "+s+")", ct.PanicsIff.Props, x.pos(in))
 		}
 	}
-	for _, en := range ct.Ensures {
+	for _, en := range append(append([]*Clause(nil), ct.Ensures...), ct.Returns...) {
 		s, err := env.evalBool(en.E)
 		if err != nil {
 			x.errorf("%s: ensures %s: %v", ct.Func, en.Label, err)
